@@ -204,7 +204,7 @@ var clsWrap = []string{
 	"(function(){ %s })()",
 	"[1].forEach(function(){ %s })",
 	"new (function(){ %s })()",
-	"EVAL", // inside direct eval code
+	"EVAL",     // inside direct eval code
 	"INDIRECT", // inside indirect (global) eval code
 }
 
